@@ -86,8 +86,8 @@ func instantiate(assumes []*Term, goal *Term) ([]*Term, *Term, bool) {
 	cands := groundIndexTerms(all)
 	occs := collectSelOccs(all)
 	inst := func(q *Term) []*Term {
-		if r := instForallTriggers(q, occs, cands); r != nil {
-			return r
+		if r, ok := instForallTriggers(q, occs, cands); ok {
+			return r // no matching ground term means no instance is relevant
 		}
 		return instForall(q, cands)
 	}
@@ -167,7 +167,7 @@ func collectSelOccs(ts []*Term) []selOcc {
 	return out
 }
 
-func instForallTriggers(q *Term, occs []selOcc, cands map[Sort][]*Term) []*Term {
+func instForallTriggers(q *Term, occs []selOcc, cands map[Sort][]*Term) ([]*Term, bool) {
 	bound := map[string]int{}
 	for i, v := range q.Bound {
 		bound[v.Op] = i
@@ -178,6 +178,7 @@ func instForallTriggers(q *Term, occs []selOcc, cands map[Sort][]*Term) []*Term 
 		sort Sort
 		vars []int // bound var position per index level, -1 = ground/other
 		gidx []*Term
+		offs []*Term // per level: ground offset c when the index is (c + x); the match yields x = t - c
 	}
 	var trigs []trig
 	seen := map[*Term]bool{}
@@ -197,8 +198,27 @@ func instForallTriggers(q *Term, occs []selOcc, cands map[Sort][]*Term) []*Term 
 						if p, ok := bound[i.Op]; ok {
 							tr.vars = append(tr.vars, p)
 							tr.gidx = append(tr.gidx, nil)
+							tr.offs = append(tr.offs, nil)
 							okT = true
 							continue
+						}
+					}
+					// index (c + x) or (x + c) with c ground
+					if i.Kind == kApp && i.Op == "+" && len(i.Args) == 2 && i.Sort == SInt {
+						var bv, off *Term
+						if i.Args[0].Kind == kBound && !i.Args[1].hasBV {
+							bv, off = i.Args[0], i.Args[1]
+						} else if i.Args[1].Kind == kBound && !i.Args[0].hasBV {
+							bv, off = i.Args[1], i.Args[0]
+						}
+						if bv != nil {
+							if p, ok := bound[bv.Op]; ok {
+								tr.vars = append(tr.vars, p)
+								tr.gidx = append(tr.gidx, nil)
+								tr.offs = append(tr.offs, off)
+								okT = true
+								continue
+							}
 						}
 					}
 					if i.hasBV {
@@ -208,6 +228,7 @@ func instForallTriggers(q *Term, occs []selOcc, cands map[Sort][]*Term) []*Term 
 					}
 					tr.vars = append(tr.vars, -1)
 					tr.gidx = append(tr.gidx, i)
+					tr.offs = append(tr.offs, nil)
 				}
 				if okT && tr.vars != nil {
 					trigs = append(trigs, tr)
@@ -220,7 +241,7 @@ func instForallTriggers(q *Term, occs []selOcc, cands map[Sort][]*Term) []*Term 
 	}
 	walk(q.Args[0])
 	if len(trigs) == 0 {
-		return nil
+		return nil, false
 	}
 	// assignments from matching occurrences
 	var res []*Term
@@ -265,11 +286,15 @@ func instForallTriggers(q *Term, occs []selOcc, cands map[Sort][]*Term) []*Term 
 			okM := true
 			for lvl, p := range tr.vars {
 				if p >= 0 {
-					if asg[p] != nil && !same(asg[p], oc.idx[lvl]) {
+					val := oc.idx[lvl]
+					if lvl < len(tr.offs) && tr.offs[lvl] != nil {
+						val = Sub(val, tr.offs[lvl])
+					}
+					if asg[p] != nil && !same(asg[p], val) {
 						okM = false
 						break
 					}
-					asg[p] = oc.idx[lvl]
+					asg[p] = val
 				}
 			}
 			if !okM {
@@ -299,7 +324,7 @@ func instForallTriggers(q *Term, occs []selOcc, cands map[Sort][]*Term) []*Term 
 			}
 		}
 	}
-	return res
+	return res, true
 }
 
 func instForall(q *Term, cands map[Sort][]*Term) []*Term {
